@@ -708,6 +708,9 @@ func (b *builder) buildInfo() {
 	if b.chance(30) {
 		d.Set("Trapped", Name([]string{"True", "False", "Unknown"}[b.rng.IntN(3)]))
 	}
+	if b.spec.InfoKeywords != nil {
+		b.setInfo(&d, "Keywords", strings.Join(b.spec.InfoKeywords, "; "))
+	}
 	b.doc.Put(ref, d)
 	b.doc.SetInfo(ref)
 	b.truth.Objs.Info = ref.Num
@@ -728,11 +731,22 @@ func (b *builder) buildXMP() {
 	if b.spec.Secrets {
 		extra = "<pdfx:VerifSecret>" + b.secret(SecretXMP, ref.Num) + "</pdfx:VerifSecret>"
 	}
+	kwNS, kw := "", ""
+	if len(b.spec.XMPKeywords) > 0 {
+		kwNS = " xmlns:pdf=\"http://ns.adobe.com/pdf/1.3/\""
+		kw = "   <dc:subject><rdf:Bag>"
+		for _, k := range b.spec.XMPKeywords {
+			kw += "<rdf:li>" + xmlEscape(k) + "</rdf:li>"
+		}
+		kw += "</rdf:Bag></dc:subject>\n   <pdf:Keywords>" + xmlEscape(strings.Join(b.spec.XMPKeywords, "; ")) + "</pdf:Keywords>\n" +
+			"   <pdf:Producer>pdfgen</pdf:Producer>\n"
+	}
 	xmp := "<?xpacket begin=\"\xef\xbb\xbf\" id=\"W5M0MpCehiHzreSzNTczkc9d\"?>\n" +
 		"<x:xmpmeta xmlns:x=\"adobe:ns:meta/\">\n" +
 		" <rdf:RDF xmlns:rdf=\"http://www.w3.org/1999/02/22-rdf-syntax-ns#\">\n" +
-		"  <rdf:Description rdf:about=\"\" xmlns:dc=\"http://purl.org/dc/elements/1.1/\" xmlns:pdfx=\"http://ns.adobe.com/pdfx/1.3/\">\n" +
+		"  <rdf:Description rdf:about=\"\" xmlns:dc=\"http://purl.org/dc/elements/1.1/\" xmlns:pdfx=\"http://ns.adobe.com/pdfx/1.3/\"" + kwNS + ">\n" +
 		"   <dc:title><rdf:Alt><rdf:li xml:lang=\"x-default\">" + xmlEscape(title) + "</rdf:li></rdf:Alt></dc:title>\n" +
+		kw +
 		"   " + extra + "\n" +
 		"  </rdf:Description>\n" +
 		" </rdf:RDF>\n" +
@@ -741,7 +755,9 @@ func (b *builder) buildXMP() {
 		"<?xpacket end=\"w\"?>"
 	b.truth.XMP = []byte(xmp)
 	s := &Stream{Dict: D("Type", Name("Metadata"), "Subtype", Name("XML")), Data: []byte(xmp)}
-	if b.spec.Filters >= FiltersCompat && b.chance(30) {
+	if b.spec.XMPPipelineSet {
+		s.Filters = b.spec.XMPPipeline
+	} else if b.spec.Filters >= FiltersCompat && b.chance(30) {
 		s.Filters = []FilterSpec{{Kind: Flate}}
 	}
 	b.doc.Put(ref, s)
@@ -913,4 +929,77 @@ func (b *builder) needVersion(v string) {
 	if b.minVersion == "" || versionLess(b.minVersion, v) {
 		b.minVersion = v
 	}
+}
+
+// ---------------------------------------------------------------------------
+// optional content properties, page labels (DocSpec.OCProperties / PageLabels)
+
+func (b *builder) buildOCProperties() {
+	ocg := func(name string) Ref {
+		return b.doc.Add(D("Type", Name("OCG"), "Name", String(name), "Intent", Name("View")))
+	}
+	g1, g2 := ocg("Layer one"), ocg("Layer two")
+	b.needVersion("1.5")
+	if b.spec.OCProperties == 1 {
+		b.catalog.Set("OCProperties", D("OCGs", Array{g1, g2}, "D", D("Order", Array{g1, g2}, "ON", Array{g1, g2})))
+		return
+	}
+	g3 := ocg("Layer three")
+	all := Array{g1, g2, g3}
+	as := func(ev string) Dict { return D("Event", Name(ev), "Category", Array{Name(ev)}, "OCGs", Array{g1, g3}) }
+	def := D("Name", String("Default"), "Creator", String("pdfgen"), "BaseState", Name("ON"),
+		"Order", Array{g1, Array{String("Group"), g2, g3}}, "ON", Array{g1, g2}, "OFF", Array{g3},
+		"AS", Array{as("View"), as("Print"), as("Export")}, "RBGroups", Array{Array{g2, g3}}, "Locked", Array{g1}, "ListMode", Name("AllPages"))
+	alt := D("Name", String("Alternative"), "BaseState", Name("OFF"), "ON", Array{g3}, "Order", Array{g3})
+	b.catalog.Set("OCProperties", b.doc.Add(D("OCGs", b.doc.Add(all), "D", def, "Configs", Array{b.doc.Add(alt)})))
+}
+
+func (b *builder) buildPageLabels() {
+	n := len(b.pages)
+	lab := func(style string, st int, prefix string) Dict {
+		d := D("Type", Name("PageLabel"))
+		if style != "" {
+			d.Set("S", Name(style))
+		}
+		if st > 1 {
+			d.Set("St", Int(st))
+		}
+		if prefix != "" {
+			d.Set("P", String(prefix))
+		}
+		return d
+	}
+	b.needVersion("1.3")
+	ranges := []struct {
+		from int
+		d    Dict
+	}{{0, lab("r", 0, "")}}
+	if n > 2 {
+		ranges = append(ranges, struct {
+			from int
+			d    Dict
+		}{2, lab("D", 1, "")})
+	}
+	if n > 5 {
+		ranges = append(ranges, struct {
+			from int
+			d    Dict
+		}{5, lab("A", 3, "App-")})
+	}
+	if b.spec.PageLabels == 1 {
+		var nums Array
+		for _, r := range ranges {
+			nums = append(nums, Int(r.from), r.d)
+		}
+		b.catalog.Set("PageLabels", D("Nums", nums))
+		return
+	}
+	// one leaf per range under an intermediate node
+	var kids Array
+	for _, r := range ranges {
+		kids = append(kids, b.doc.Add(D("Limits", Array{Int(r.from), Int(r.from)}, "Nums", Array{Int(r.from), b.doc.Add(r.d)})))
+	}
+	last := ranges[len(ranges)-1].from
+	mid := b.doc.Add(D("Limits", Array{Int(0), Int(last)}, "Kids", kids))
+	b.catalog.Set("PageLabels", b.doc.Add(D("Kids", Array{mid})))
 }
